@@ -331,9 +331,10 @@ def finish(ctx, rep, lean, level_note_axioms=True):
         wall_s=round(time.time() - ctx.t0, 2),
         violations=violations,
     )
-    os.makedirs(os.path.join(VERIF, "evidence"), exist_ok=True)
-    with open(os.path.join(VERIF, "evidence", f"{prop}.json"), "w") as f:
-        json.dump(ev, f, indent=1, default=str)
+    if not getattr(ctx, "is_replay", False):     # a replay explores one input: it must not replace the run's evidence
+        os.makedirs(os.path.join(VERIF, "evidence"), exist_ok=True)
+        with open(os.path.join(VERIF, "evidence", f"{prop}.json"), "w") as f:
+            json.dump(ev, f, indent=1, default=str)
     for l in lines:
         print(l)
     print(f"[{prop}] tier={ctx.tier} seed={ctx.seed} obligations={lean['obligations']} discharged={lean['discharged']} "
